@@ -70,7 +70,8 @@ TECHNIQUE = ("Lean 4: the C20S transition system (handle calls, forwarders, engi
 LEVEL_TEXT = ("Proof (sub-check of C20). Lean theorems (lean/BarterModel/Props/C20E.lean) over the COMPOSITION of the existing concrete models inside the C20S scheduler model, for "
               "EVERY action list (every tokio schedule, every handle-call sequence, every market input), unbounded: "
               "(1) request conservation: requests_are_what_ticks_report_sent, engine_log_is_requests (what the exchange received = the engine's delivery log, once, in order), "
-              "one_response_per_request, responses_processed_at_most_once, every_request_answered_once_at_quiescence, response_is_exchange_answer; with the manager / client in "
+              "one_response_per_request, responses_processed_at_most_once, every_request_answered_once_at_quiescence, responses_are_requests_at_quiescence + responses_never_exceed_requests "
+              "(the spec key `resp`: at every quiescent observation - the one taken before the close included - the identities of the processed responses are, as a sorted multiset, the identities of the requests sent), response_is_exchange_answer; with the manager / client in "
               "detail: mock_client_echoes (C07's EchoesKey discharged), response_is_managers_event, manager_answers_exactly_once, client_returns_exchange_verdict (C08C); "
               "(2) the order life cycle closes: exchange_response_is_final, response_closes_order, response_step_is_lifecycle (C01), closed_until_next_request, "
               "order_gone_after_response, produced_orders_are_final, tracked_order_has_response_outstanding (in flight => more requests sent than responses processed), "
